@@ -124,6 +124,325 @@ def ctxt_forwarding(chk, P, prefix, floor):
                    lambda b=b: common.forward_check(b, check_return=False, check_params=False), loc=b.span)
     chk.floor("forwarding / erased Ctxt methods", n, floor)
 
+    def wrappers_define_open_push():
+        """Ctxt::open_push has a default (`open_root(props.and_props(current))`) that is only right for an implementor whose open_root keeps the
+        *first* value of a repeated key.  ThreadLocalCtxt's does not (it inserts into a map, last wins) and overrides open_push instead - so a
+        wrapper or bridge that leaves open_push to the default replaces the inner context's overlay by one in which the inherited value
+        shadows the frame's own.  Every wrapping impl therefore defines open_push (and the forward rule above pins what it calls)."""
+        bad, ev = [], []
+        for i in P.impls:
+            if i.get("trait") != CTXT:
+                continue
+            st = i.get("self_ty") or ""
+            wraps = any(re.search(r": emit_core::ctxt::(alloc_support::)?(Ctxt|ErasedCtxt)", p) for p in i.get("predicates", ())) or st.startswith("(dyn") or common.is_wrapper_self(st)
+            if not wraps:
+                continue
+            names = {it["name"] for it in i.get("items", ()) if it.get("kind") == "Fn"}
+            if "open_push" not in names:
+                bad.append((st, i.get("span")))
+            else:
+                ev.append(st)
+        if bad:
+            return False, ("`impl Ctxt for %s` leaves open_push to the trait default: through this wrapper a pushed frame is built as "
+                           "open_root(own props, then inherited props), and an inner context that keeps the last value of a repeated key (ThreadLocalCtxt) "
+                           "shows the inherited value instead of the frame's own" % bad[0][0]), [], bad[0][1]
+        if len(ev) < 5:
+            raise mir.AnchorMissing("wrapping impls of Ctxt (found %d)" % len(ev))
+        return True, "", ev
+    chk.ob("%s.forward:open_push-is-forwarded" % prefix, "every wrapping / bridging impl of Ctxt defines open_push (the default does not reproduce the inner overlay)",
+           wrappers_define_open_push)
+
+
+
+def thread_local_rules(chk, P, prefix):
+    """R6-R10: the thread-local context implementation (swap involution, isolation by id, storage, construction of frames)."""
+    # ---- R6: enter and exit are the same swap ------------------------------------------------------------------------
+    def tlc_method(name):
+        def f():
+            b = P.impl_method(CTXT, TLC, name)
+            cs = b.calls_to(path=TL + "swap")
+            if len(cs) != 1 or b.count_on_paths({cs[0].bb}) != (1, 1):
+                return False, "ThreadLocalCtxt::%s must call swap exactly once (found %d call sites)" % (name, len(cs)), [], b.span
+            c = cs[0]
+            if self_fields(b, c.args[0]) != ["id"]:
+                return False, "swap is keyed by %s, not self.id" % o_str(b.origin(c.args[0])), [], c.loc
+            if not mir.o_is_param(b.origin(c.args[1]), idx=2):
+                return False, "swap is given %s, not the frame" % o_str(b.origin(c.args[1])), [], c.loc
+            return True, "", [c.loc]
+        return f
+    chk.ob("%s.R6:ThreadLocalCtxt::enter" % prefix, "enter swaps the frame with this context's slot", tlc_method("enter"))
+    chk.ob("%s.R6:ThreadLocalCtxt::exit" % prefix, "exit is the same swap as enter (an involution applied in stack order restores the previous slot)", tlc_method("exit"))
+
+    def with_local(fn):
+        """closure passed to ACTIVE.with in `fn`"""
+        b = P.body(TL + fn)
+        ws = [c for c in b.calls(normal_only=True) if c.callee.get("name") == "with" and "LocalKey" in (c.callee.get("full") or "")]
+        if len(ws) != 1:
+            raise mir.AnchorMissing("%s does not use exactly one LocalKey::with" % fn)
+        key = b.origin(ws[0].args[0])
+        clo = b.origin(ws[0].args[1])
+        if clo[0] != "agg" or clo[1].get("ak") != "closure":
+            raise mir.AnchorMissing("LocalKey::with argument is not a closure literal")
+        return b, ws[0], key, clo, P.body(clo[1]["def"])
+
+    def swap_fn():
+        b, w, key, clo, cb = with_local("swap")
+        if not (key[0] == "const" and (key[1].get("def") or "").endswith("::ACTIVE")):
+            return False, "swap uses %s, not the ACTIVE thread-local" % o_str(key), [], w.loc
+        sw = cb.calls_to(path="core::mem::swap")
+        rp = cb.calls_to(path="core::mem::replace")
+        if not sw and len(rp) == 1 and cb.count_on_paths({rp[0].bb}) == (1, 1):
+            # the same exchange spelt as `let old = mem::replace(slot, <incoming's value>); *incoming = old`
+            ent = [c for c in cb.calls(normal_only=True) if c.callee.get("name") == "entry"]
+            if len(ent) != 1 or ("callsite", ent[0].bb) not in common.roots(cb.origin(rp[0].args[0])):
+                return False, "mem::replace does not write this context's map entry", [], rp[0].loc
+            ko = cb.origin(ent[0].args[1])
+            if not (ko[0] == "capture" and mir.o_is_param(P.capture_origin(cb, ko), idx=1)):
+                return False, "the slot is looked up with key %s, not the id parameter" % o_str(ko), [], ent[0].loc
+            par = P.body(cb.parent_key)
+            if not any(l[0] == "param" and l[1] == par.key and l[2] == 2 for l in common.deep_roots(P, cb, cb.origin(rp[0].args[1]))):
+                return False, "the value stored in the slot is %s, not the incoming frame's" % o_str(cb.origin(rp[0].args[1])), [], rp[0].loc
+            back = False
+            for bb, j, st in cb.statements(normal_only=True):
+                if st["k"] == "assign" and st["place"].get("p") and st["place"]["l"] == 1 and st["rv"]["k"] == "use":
+                    v = mir.o_root(cb.origin(st["rv"]["op"]))
+                    tgt = cb._origin_place({"l": 1, "p": st["place"]["p"][:2]}, 0, (), set())
+                    if v[0] == "call" and v[1].bb == rp[0].bb and tgt[0] == "capture" and mir.o_is_param(P.capture_origin(cb, tgt), idx=2):
+                        back = True
+            if not back:
+                return False, "the slot's previous value (the result of mem::replace) is not handed back through the frame parameter", [], rp[0].loc
+            return True, "", [ent[0].loc, rp[0].loc]
+        if len(sw) != 1 or cb.count_on_paths({sw[0].bb}) != (1, 1):
+            return False, "swap must exchange the slot and the frame with exactly one mem::swap", [], cb.span
+        a = cb.origin(sw[0].args[0])
+        i = cb.origin(sw[0].args[1])
+        ra = common.roots(a)
+        ent = [c for c in cb.calls(normal_only=True) if c.callee.get("name") == "entry"]
+        if len(ent) != 1 or ("callsite", ent[0].bb) not in ra:
+            return False, "the first operand of mem::swap is %s, not this context's map entry" % o_str(a), [], sw[0].loc
+        # by provenance (what was captured), not by the captured variables' names: the second operand is the function's frame
+        # parameter (#2), the key its id parameter (#1)
+        if not (i[0] == "capture" and mir.o_is_param(P.capture_origin(cb, i), idx=2)):
+            return False, "the second operand of mem::swap is %s, not the incoming frame (the function's second parameter)" % o_str(i), [], sw[0].loc
+        ko = cb.origin(ent[0].args[1])
+        if not (ko[0] == "capture" and mir.o_is_param(P.capture_origin(cb, ko), idx=1)):
+            return False, "the slot is looked up with key %s, not the id parameter" % o_str(ko), [], ent[0].loc
+        return True, "", [ent[0].loc, sw[0].loc]
+    chk.ob("%s.R6:swap" % prefix, "swap exchanges the incoming frame with the map entry for the id, in the thread-local", swap_fn)
+
+    # ---- R7 -----------------------------------------------------------------------------------------------------------
+    def current_fn():
+        b, w, key, clo, cb = with_local("current")
+        if not (key[0] == "const" and (key[1].get("def") or "").endswith("::ACTIVE")):
+            return False, "current uses %s, not the ACTIVE thread-local" % o_str(key), [], w.loc
+        ent = [c for c in cb.calls(normal_only=True) if c.callee.get("name") == "entry"]
+        if len(ent) != 1:
+            return False, "expected one entry() lookup", [], cb.span
+        ko = cb.origin(ent[0].args[1])
+        if not (ko[0] == "capture" and mir.o_is_param(P.capture_origin(cb, ko), idx=1)):
+            return False, "the slot is looked up with key %s, not the id parameter" % o_str(ko), [], ent[0].loc
+        r = cb.origin(0)
+        if not mir.o_is_call(r, name="clone"):
+            return False, "current returns %s, not a clone (snapshot) of the slot" % o_str(r), [], cb.span
+        if ("callsite", ent[0].bb) not in common.roots(r):
+            return False, "the snapshot is not of this id's slot", [], cb.span
+        return True, "", [ent[0].loc]
+    chk.ob("%s.R7:current" % prefix, "current(id) snapshots (clones) the thread-local slot keyed by the id", current_fn)
+
+    def default_is_fresh():
+        bs = [b for b in P.bodies.values() if not b.is_closure and b.method == "default" and (b.self_ty or "") == TLC]
+        if not bs:
+            raise mir.AnchorMissing("Default for ThreadLocalCtxt")
+        b = bs[0]
+        cs = [c for c in b.calls(normal_only=True)]
+        if len(cs) != 1 or not (cs[0].callee.get("path") or "").endswith("ThreadLocalCtxt::new"):
+            return False, ("ThreadLocalCtxt::default() is %s, not ThreadLocalCtxt::new(): contexts made with Default (emit::setup() makes its "
+                           "context that way) would share one thread-local slot with each other and with the shared context instead of "
+                           "getting an id of their own" % [c.callee.get("path") for c in cs]), [], b.span
+        return True, "", [cs[0].loc]
+    chk.ob("%s.R7:default-is-fresh" % prefix, "a defaulted context is a new context with an id of its own (per-instance isolation)", default_is_fresh)
+
+    def callers_pass_self_id():
+        sites = []
+        for b in P.by_crate["emit"]:
+            for c in b.calls(normal_only=True):
+                if c.callee.get("path") in (TL + "current", TL + "swap"):
+                    if self_fields(b, c.args[0]) != ["id"]:
+                        return False, "%s calls %s with key %s, not self.id" % (b.key, c.callee["path"], o_str(b.origin(c.args[0]))), [], c.loc
+                    sites.append(c.loc)
+        if not sites:
+            raise mir.AnchorMissing("callers of thread_local_ctxt::current/swap")
+        if len(sites) < 4:
+            return False, "expected at least 4 callers of current/swap, found %d" % len(sites), [], None
+        return True, "", sites
+    chk.ob("%s.R7:callers" % prefix, "every caller of current/swap passes its own context id", callers_pass_self_id)
+
+    def ids():
+        sh = P.body(TLC + "::shared")
+        so = sh.origin(0)
+        if so[0] != "agg":
+            return False, "shared() returns %s" % o_str(so), [], sh.span
+        shared_id = mir.o_const_value(dict(zip(so[1]["fields"], so[2]))["id"])
+        if shared_id is None:
+            return False, "shared()'s id is not a constant", [], sh.span
+        nw = P.body(TLC + "::new")
+        no = nw.origin(0)
+        idsrc = dict(zip(no[1]["fields"], no[2]))["id"] if no[0] == "agg" else None
+        if not (idsrc and mir.o_is_call(idsrc, path=TL + "ctxt_id")):
+            return False, "new() takes its id from %s, not ctxt_id()" % (o_str(idsrc) if idsrc else o_str(no)), [], nw.span
+        g = P.body(TL + "ctxt_id")
+        # the counter: a static with a constant initial value
+        statics = set()
+        for bb, j, s in g.statements(normal_only=True):
+            if s["k"] == "assign":
+                for o in g.rvalue_operands(s["rv"]):
+                    if isinstance(o.get("k"), dict) and isinstance(o["k"].get("v"), dict) and "static" in o["k"]["v"]:
+                        statics.add(o["k"]["v"]["static"])
+        if len(statics) != 1:
+            return False, "ctxt_id() must draw from exactly one static counter (found %s)" % sorted(statics), [], g.span
+        st = P.body(statics.pop())
+        init = st.origin(0)
+        if not (init[0] == "call" and init[1].callee.get("name") == "new" and init[1].args):
+            return False, "counter initialiser %s not recognised" % o_str(init), [], st.span
+        init_v = mir.o_const_value(st.origin(init[1].args[0]))
+        if init_v is None:
+            return False, "counter's initial value is not a constant", [], st.span
+        # what ctxt_id returns relative to the stored value: the value read before the increment (+k)
+        r = g.origin(0)
+        first = None
+        if r[0] in ("field", "call", "local", "param") or r[0] == "cast":
+            # a plain load through a guard deref, or fetch_add's result (previous value)
+            if r[0] == "call" and r[1].callee.get("name") not in ("deref", "deref_mut", "fetch_add", "load", "get", "replace"):
+                first = None
+            else:
+                first = init_v
+        if r[0] == "binop" and r[1] in ("Add", "AddWithOverflow", "AddUnchecked"):
+            k = mir.o_const_value(r[3])
+            if k is not None:
+                first = init_v + k
+        if r[0] == "call" and r[1].callee.get("name") in ("wrapping_add", "checked_add", "saturating_add"):
+            k = mir.o_const_value(g.origin(r[1].args[1]))
+            if k is not None:
+                first = init_v + k
+        if first is None:
+            return False, "how ctxt_id() derives the id from the counter is not recognised (%s)" % o_str(r), [], g.span
+        if first == shared_id:
+            return False, ("the first id ctxt_id() hands out is %d, the same as the id of ThreadLocalCtxt::shared(): the "
+                           "first isolated context would share storage with the shared one" % first), [], g.span
+        if first < shared_id:
+            return False, "ids start at %d below the shared id %d and will reach it" % (first, shared_id), [], g.span
+        # the increment must be a +1 step (ids are distinct until wrap-around)
+        incs = [c for c in g.calls(normal_only=True) if c.callee.get("name") in ("wrapping_add", "fetch_add", "checked_add")]
+        if len(incs) != 1:
+            return False, "expected exactly one increment of the counter", [], g.span
+        step = mir.o_const_value(g.origin(incs[0].args[1]))
+        if step != 1:
+            return False, "counter step is %s" % step, [], incs[0].loc
+        return True, "first isolated id %d != shared id %d" % (first, shared_id), [g.span, st.span]
+    chk.ob("%s.R7:ids" % prefix, "isolated contexts never receive the shared context's id (counter start vs shared constant)", ids)
+
+    # ---- R8 ---------------------------------------------------------------------------------------------------------
+    def tls():
+        c = P.consts.get(TL + "ACTIVE")
+        if c is None:
+            raise mir.AnchorMissing("thread_local ACTIVE")
+        if not c["ty"].startswith("std::thread::local::LocalKey<"):
+            return False, "ACTIVE is a %s, not thread-local storage" % c["ty"], [], None
+        t = P.consts.get("emit_traceparent::ACTIVE_TRACEPARENT")
+        if t is None or not t["ty"].startswith("std::thread::local::LocalKey<"):
+            return False, "emit_traceparent::ACTIVE_TRACEPARENT is not thread-local storage", [], None
+        # other process-wide mutable statics used by the ctxt module
+        bad = []
+        for path, s in P.statics.items():
+            if path.startswith(TL) and not s.get("thread_local"):
+                if re.search(r"Mutex|RwLock|RefCell|Cell<|Atomic|OnceLock|OnceCell", s["ty"]) and not path.endswith("NEXT_CTXT_ID"):
+                    bad.append(path)
+        if bad:
+            return False, "process-wide mutable state in the thread-local ctxt module: %s" % bad, [], None
+        return True, "", [TL + "ACTIVE", "emit_traceparent::ACTIVE_TRACEPARENT"]
+    chk.ob("%s.R8:thread-local" % prefix, "the active-frame storage is thread_local!; the only process-wide state is the id counter", tls)
+
+    # ---- R9 ---------------------------------------------------------------------------------------------------------------
+    def open_root():
+        b = P.impl_method(CTXT, TLC, "open_root")
+        bodies = [b] + P.closures_of(b)
+        for x in bodies:
+            if x.calls_to(path=TL + "current") or x.calls_to(path=TL + "swap"):
+                return False, "open_root reads the current ambient state: a root frame must show only its own properties", [], x.span
+        fe = b.calls_to(trait="emit_core::props::Props", name="for_each")
+        if len(fe) != 1 or not mir.o_is_param(b.origin(fe[0].args[0]), idx=2):
+            return False, "open_root must enumerate the given props once", [], b.span
+        return True, "", [fe[0].loc]
+    chk.ob("%s.R9:open_root" % prefix, "a root frame is built only from its own properties", open_root)
+
+    def open_push():
+        b = P.impl_method(CTXT, TLC, "open_push")
+        cur = b.calls_to(path=TL + "current")
+        if len(cur) != 1 or self_fields(b, cur[0].args[0]) != ["id"]:
+            return False, "open_push must start from current(self.id)", [], b.span
+        r = b.origin(0)
+        if not (r[0] == "call" and r[1].bb == cur[0].bb) and not (r[0] == "local"):
+            # `span` is mutated in place; its whole-definition is the current() call
+            pass
+        ds = [d for d in b.defs().get(b.origin(0)[1] if b.origin(0)[0] == "local" else -1, ())]
+        fe = b.calls_to(trait="emit_core::props::Props", name="for_each")
+        if len(fe) != 1 or not mir.o_is_param(b.origin(fe[0].args[0]), idx=2):
+            return False, "open_push must enumerate the pushed props once", [], b.span
+        clo = b.origin(fe[0].args[1])
+        if clo[0] != "agg":
+            return False, "visitor not a closure", [], fe[0].loc
+        cb = P.body(clo[1]["def"])
+        ins = [c for c in cb.calls(normal_only=True) if c.callee.get("name") == "insert" and "HashMap" in (c.callee.get("full") or "")]
+        if len(ins) != 1:
+            return False, ("pushed properties must be written with HashMap::insert (pushed overrides ambient); found calls %s"
+                           % [c.callee.get("name") for c in cb.calls(normal_only=True)]), [], cb.span
+        if not common.has_root(cb.origin(ins[0].args[1]), "param", 2) or not common.has_root(cb.origin(ins[0].args[2]), "param", 3):
+            return False, "insert is not (visited key, visited value)", [], ins[0].loc
+        if cb.count_on_paths({ins[0].bb}) != (1, 1):
+            return False, ("open_push writes a pushed property only on some paths (a filter on the key or value at %s): a property the frame "
+                           "was given - e.g. a null that is meant to blank out an ambient value - would not be part of the frame"
+                           % ins[0].loc), [], ins[0].loc
+        # sibling agreement: root and push frames buffer a visited property by the same steps
+        rb_ = P.impl_method(CTXT, TLC, "open_root")
+        rfe = rb_.calls_to(trait="emit_core::props::Props", name="for_each")
+        if len(rfe) == 1 and rb_.origin(rfe[0].args[1])[0] == "agg":
+            rcb = P.body(rb_.origin(rfe[0].args[1])[1]["def"])
+            seq_a = [c.callee.get("name") for c in cb.calls(normal_only=True)]
+            seq_b = [c.callee.get("name") for c in rcb.calls(normal_only=True)]
+            if sorted(map(str, seq_a)) != sorted(map(str, seq_b)) or len(list(cb.switches())) != len(list(rcb.switches())):
+                return False, "open_root and open_push buffer a visited property by different steps (%s vs %s)" % (seq_b, seq_a), [], cb.span
+        mm = [c for c in b.calls(normal_only=True) if c.callee.get("name") == "make_mut"]
+        if len(mm) != 1:
+            return False, "the snapshot must be made unique with Arc::make_mut before it is written (copy-on-write)", [], b.span
+        return True, "", [cur[0].loc, ins[0].loc, mm[0].loc]
+    chk.ob("%s.R9:open_push" % prefix, "a pushed frame is the current snapshot (copy-on-write) overlaid by the pushed properties", open_push)
+
+    open_disabled_rule(chk, P, "C03")
+
+    def with_current():
+        b = P.impl_method(CTXT, TLC, "with_current")
+        cur = b.calls_to(path=TL + "current")
+        if len(cur) != 1 or self_fields(b, cur[0].args[0]) != ["id"]:
+            return False, "with_current must read current(self.id)", [], b.span
+        us = [c for c in b.calls(normal_only=True) if c.callee.get("name") == "call_once"]
+        if len(us) != 1 or b.count_on_paths({us[0].bb}) != (1, 1):
+            return False, "with_current must call the callback exactly once", [], b.span
+        if not common.has_root(b.origin(us[0].args[1]), "callsite", cur[0].bb):
+            return False, "the callback is shown %s, not the current snapshot" % o_str(b.origin(us[0].args[1])), [], us[0].loc
+        return True, "", [cur[0].loc, us[0].loc]
+    chk.ob("%s.R9:with_current" % prefix, "with_current shows the callback a snapshot of this context's slot", with_current)
+
+    # ---- R10 ---------------------------------------------------------------------------------------------------------------
+    def frame_adt():
+        a = P.adt(TL + "ThreadLocalCtxtFrame")
+        tys = [f["ty"] for v in a["variants"] for f in v["fields"]]
+        for t in tys:
+            if re.search(r"RefCell|Cell<|Mutex|RwLock|Atomic", t):
+                return False, "ThreadLocalCtxtFrame has interior mutability: %s" % t, [], a["span"]
+            if "HashMap" in t and "Arc<" not in t:
+                return False, "frame props are not behind Arc (snapshot semantics): %s" % t, [], a["span"]
+        return True, "", tys
+    chk.ob("%s.R10:ThreadLocalCtxtFrame" % prefix, "a frame is an immutable shared snapshot (Arc, no interior mutability): moving it carries its properties", frame_adt)
 
 
 def run(chk):
@@ -263,293 +582,7 @@ def run(chk):
         return True, "", [fg[0].loc]
     chk.ob("C03.R5:Frame::into_parts", "into_parts moves the parts out and forgets the frame", into_parts)
 
-    # ---- R6: enter and exit are the same swap ------------------------------------------------------------------------
-    def tlc_method(name):
-        def f():
-            b = P.impl_method(CTXT, TLC, name)
-            cs = b.calls_to(path=TL + "swap")
-            if len(cs) != 1 or b.count_on_paths({cs[0].bb}) != (1, 1):
-                return False, "ThreadLocalCtxt::%s must call swap exactly once (found %d call sites)" % (name, len(cs)), [], b.span
-            c = cs[0]
-            if self_fields(b, c.args[0]) != ["id"]:
-                return False, "swap is keyed by %s, not self.id" % o_str(b.origin(c.args[0])), [], c.loc
-            if not mir.o_is_param(b.origin(c.args[1]), idx=2):
-                return False, "swap is given %s, not the frame" % o_str(b.origin(c.args[1])), [], c.loc
-            return True, "", [c.loc]
-        return f
-    chk.ob("C03.R6:ThreadLocalCtxt::enter", "enter swaps the frame with this context's slot", tlc_method("enter"))
-    chk.ob("C03.R6:ThreadLocalCtxt::exit", "exit is the same swap as enter (an involution applied in stack order restores the previous slot)", tlc_method("exit"))
-
-    def with_local(fn):
-        """closure passed to ACTIVE.with in `fn`"""
-        b = P.body(TL + fn)
-        ws = [c for c in b.calls(normal_only=True) if c.callee.get("name") == "with" and "LocalKey" in (c.callee.get("full") or "")]
-        if len(ws) != 1:
-            raise mir.AnchorMissing("%s does not use exactly one LocalKey::with" % fn)
-        key = b.origin(ws[0].args[0])
-        clo = b.origin(ws[0].args[1])
-        if clo[0] != "agg" or clo[1].get("ak") != "closure":
-            raise mir.AnchorMissing("LocalKey::with argument is not a closure literal")
-        return b, ws[0], key, clo, P.body(clo[1]["def"])
-
-    def swap_fn():
-        b, w, key, clo, cb = with_local("swap")
-        if not (key[0] == "const" and (key[1].get("def") or "").endswith("::ACTIVE")):
-            return False, "swap uses %s, not the ACTIVE thread-local" % o_str(key), [], w.loc
-        sw = cb.calls_to(path="core::mem::swap")
-        rp = cb.calls_to(path="core::mem::replace")
-        if not sw and len(rp) == 1 and cb.count_on_paths({rp[0].bb}) == (1, 1):
-            # the same exchange spelt as `let old = mem::replace(slot, <incoming's value>); *incoming = old`
-            ent = [c for c in cb.calls(normal_only=True) if c.callee.get("name") == "entry"]
-            if len(ent) != 1 or ("callsite", ent[0].bb) not in common.roots(cb.origin(rp[0].args[0])):
-                return False, "mem::replace does not write this context's map entry", [], rp[0].loc
-            ko = cb.origin(ent[0].args[1])
-            if not (ko[0] == "capture" and mir.o_is_param(P.capture_origin(cb, ko), idx=1)):
-                return False, "the slot is looked up with key %s, not the id parameter" % o_str(ko), [], ent[0].loc
-            par = P.body(cb.parent_key)
-            if not any(l[0] == "param" and l[1] == par.key and l[2] == 2 for l in common.deep_roots(P, cb, cb.origin(rp[0].args[1]))):
-                return False, "the value stored in the slot is %s, not the incoming frame's" % o_str(cb.origin(rp[0].args[1])), [], rp[0].loc
-            back = False
-            for bb, j, st in cb.statements(normal_only=True):
-                if st["k"] == "assign" and st["place"].get("p") and st["place"]["l"] == 1 and st["rv"]["k"] == "use":
-                    v = mir.o_root(cb.origin(st["rv"]["op"]))
-                    tgt = cb._origin_place({"l": 1, "p": st["place"]["p"][:2]}, 0, (), set())
-                    if v[0] == "call" and v[1].bb == rp[0].bb and tgt[0] == "capture" and mir.o_is_param(P.capture_origin(cb, tgt), idx=2):
-                        back = True
-            if not back:
-                return False, "the slot's previous value (the result of mem::replace) is not handed back through the frame parameter", [], rp[0].loc
-            return True, "", [ent[0].loc, rp[0].loc]
-        if len(sw) != 1 or cb.count_on_paths({sw[0].bb}) != (1, 1):
-            return False, "swap must exchange the slot and the frame with exactly one mem::swap", [], cb.span
-        a = cb.origin(sw[0].args[0])
-        i = cb.origin(sw[0].args[1])
-        ra = common.roots(a)
-        ent = [c for c in cb.calls(normal_only=True) if c.callee.get("name") == "entry"]
-        if len(ent) != 1 or ("callsite", ent[0].bb) not in ra:
-            return False, "the first operand of mem::swap is %s, not this context's map entry" % o_str(a), [], sw[0].loc
-        # by provenance (what was captured), not by the captured variables' names: the second operand is the function's frame
-        # parameter (#2), the key its id parameter (#1)
-        if not (i[0] == "capture" and mir.o_is_param(P.capture_origin(cb, i), idx=2)):
-            return False, "the second operand of mem::swap is %s, not the incoming frame (the function's second parameter)" % o_str(i), [], sw[0].loc
-        ko = cb.origin(ent[0].args[1])
-        if not (ko[0] == "capture" and mir.o_is_param(P.capture_origin(cb, ko), idx=1)):
-            return False, "the slot is looked up with key %s, not the id parameter" % o_str(ko), [], ent[0].loc
-        return True, "", [ent[0].loc, sw[0].loc]
-    chk.ob("C03.R6:swap", "swap exchanges the incoming frame with the map entry for the id, in the thread-local", swap_fn)
-
-    # ---- R7 -----------------------------------------------------------------------------------------------------------
-    def current_fn():
-        b, w, key, clo, cb = with_local("current")
-        if not (key[0] == "const" and (key[1].get("def") or "").endswith("::ACTIVE")):
-            return False, "current uses %s, not the ACTIVE thread-local" % o_str(key), [], w.loc
-        ent = [c for c in cb.calls(normal_only=True) if c.callee.get("name") == "entry"]
-        if len(ent) != 1:
-            return False, "expected one entry() lookup", [], cb.span
-        ko = cb.origin(ent[0].args[1])
-        if not (ko[0] == "capture" and mir.o_is_param(P.capture_origin(cb, ko), idx=1)):
-            return False, "the slot is looked up with key %s, not the id parameter" % o_str(ko), [], ent[0].loc
-        r = cb.origin(0)
-        if not mir.o_is_call(r, name="clone"):
-            return False, "current returns %s, not a clone (snapshot) of the slot" % o_str(r), [], cb.span
-        if ("callsite", ent[0].bb) not in common.roots(r):
-            return False, "the snapshot is not of this id's slot", [], cb.span
-        return True, "", [ent[0].loc]
-    chk.ob("C03.R7:current", "current(id) snapshots (clones) the thread-local slot keyed by the id", current_fn)
-
-    def default_is_fresh():
-        bs = [b for b in P.bodies.values() if not b.is_closure and b.method == "default" and (b.self_ty or "") == TLC]
-        if not bs:
-            raise mir.AnchorMissing("Default for ThreadLocalCtxt")
-        b = bs[0]
-        cs = [c for c in b.calls(normal_only=True)]
-        if len(cs) != 1 or not (cs[0].callee.get("path") or "").endswith("ThreadLocalCtxt::new"):
-            return False, ("ThreadLocalCtxt::default() is %s, not ThreadLocalCtxt::new(): contexts made with Default (emit::setup() makes its "
-                           "context that way) would share one thread-local slot with each other and with the shared context instead of "
-                           "getting an id of their own" % [c.callee.get("path") for c in cs]), [], b.span
-        return True, "", [cs[0].loc]
-    chk.ob("C03.R7:default-is-fresh", "a defaulted context is a new context with an id of its own (per-instance isolation)", default_is_fresh)
-
-    def callers_pass_self_id():
-        sites = []
-        for b in P.by_crate["emit"]:
-            for c in b.calls(normal_only=True):
-                if c.callee.get("path") in (TL + "current", TL + "swap"):
-                    if self_fields(b, c.args[0]) != ["id"]:
-                        return False, "%s calls %s with key %s, not self.id" % (b.key, c.callee["path"], o_str(b.origin(c.args[0]))), [], c.loc
-                    sites.append(c.loc)
-        if not sites:
-            raise mir.AnchorMissing("callers of thread_local_ctxt::current/swap")
-        if len(sites) < 4:
-            return False, "expected at least 4 callers of current/swap, found %d" % len(sites), [], None
-        return True, "", sites
-    chk.ob("C03.R7:callers", "every caller of current/swap passes its own context id", callers_pass_self_id)
-
-    def ids():
-        sh = P.body(TLC + "::shared")
-        so = sh.origin(0)
-        if so[0] != "agg":
-            return False, "shared() returns %s" % o_str(so), [], sh.span
-        shared_id = mir.o_const_value(dict(zip(so[1]["fields"], so[2]))["id"])
-        if shared_id is None:
-            return False, "shared()'s id is not a constant", [], sh.span
-        nw = P.body(TLC + "::new")
-        no = nw.origin(0)
-        idsrc = dict(zip(no[1]["fields"], no[2]))["id"] if no[0] == "agg" else None
-        if not (idsrc and mir.o_is_call(idsrc, path=TL + "ctxt_id")):
-            return False, "new() takes its id from %s, not ctxt_id()" % (o_str(idsrc) if idsrc else o_str(no)), [], nw.span
-        g = P.body(TL + "ctxt_id")
-        # the counter: a static with a constant initial value
-        statics = set()
-        for bb, j, s in g.statements(normal_only=True):
-            if s["k"] == "assign":
-                for o in g.rvalue_operands(s["rv"]):
-                    if isinstance(o.get("k"), dict) and isinstance(o["k"].get("v"), dict) and "static" in o["k"]["v"]:
-                        statics.add(o["k"]["v"]["static"])
-        if len(statics) != 1:
-            return False, "ctxt_id() must draw from exactly one static counter (found %s)" % sorted(statics), [], g.span
-        st = P.body(statics.pop())
-        init = st.origin(0)
-        if not (init[0] == "call" and init[1].callee.get("name") == "new" and init[1].args):
-            return False, "counter initialiser %s not recognised" % o_str(init), [], st.span
-        init_v = mir.o_const_value(st.origin(init[1].args[0]))
-        if init_v is None:
-            return False, "counter's initial value is not a constant", [], st.span
-        # what ctxt_id returns relative to the stored value: the value read before the increment (+k)
-        r = g.origin(0)
-        first = None
-        if r[0] in ("field", "call", "local", "param") or r[0] == "cast":
-            # a plain load through a guard deref, or fetch_add's result (previous value)
-            if r[0] == "call" and r[1].callee.get("name") not in ("deref", "deref_mut", "fetch_add", "load", "get", "replace"):
-                first = None
-            else:
-                first = init_v
-        if r[0] == "binop" and r[1] in ("Add", "AddWithOverflow", "AddUnchecked"):
-            k = mir.o_const_value(r[3])
-            if k is not None:
-                first = init_v + k
-        if r[0] == "call" and r[1].callee.get("name") in ("wrapping_add", "checked_add", "saturating_add"):
-            k = mir.o_const_value(g.origin(r[1].args[1]))
-            if k is not None:
-                first = init_v + k
-        if first is None:
-            return False, "how ctxt_id() derives the id from the counter is not recognised (%s)" % o_str(r), [], g.span
-        if first == shared_id:
-            return False, ("the first id ctxt_id() hands out is %d, the same as the id of ThreadLocalCtxt::shared(): the "
-                           "first isolated context would share storage with the shared one" % first), [], g.span
-        if first < shared_id:
-            return False, "ids start at %d below the shared id %d and will reach it" % (first, shared_id), [], g.span
-        # the increment must be a +1 step (ids are distinct until wrap-around)
-        incs = [c for c in g.calls(normal_only=True) if c.callee.get("name") in ("wrapping_add", "fetch_add", "checked_add")]
-        if len(incs) != 1:
-            return False, "expected exactly one increment of the counter", [], g.span
-        step = mir.o_const_value(g.origin(incs[0].args[1]))
-        if step != 1:
-            return False, "counter step is %s" % step, [], incs[0].loc
-        return True, "first isolated id %d != shared id %d" % (first, shared_id), [g.span, st.span]
-    chk.ob("C03.R7:ids", "isolated contexts never receive the shared context's id (counter start vs shared constant)", ids)
-
-    # ---- R8 ---------------------------------------------------------------------------------------------------------
-    def tls():
-        c = P.consts.get(TL + "ACTIVE")
-        if c is None:
-            raise mir.AnchorMissing("thread_local ACTIVE")
-        if not c["ty"].startswith("std::thread::local::LocalKey<"):
-            return False, "ACTIVE is a %s, not thread-local storage" % c["ty"], [], None
-        t = P.consts.get("emit_traceparent::ACTIVE_TRACEPARENT")
-        if t is None or not t["ty"].startswith("std::thread::local::LocalKey<"):
-            return False, "emit_traceparent::ACTIVE_TRACEPARENT is not thread-local storage", [], None
-        # other process-wide mutable statics used by the ctxt module
-        bad = []
-        for path, s in P.statics.items():
-            if path.startswith(TL) and not s.get("thread_local"):
-                if re.search(r"Mutex|RwLock|RefCell|Cell<|Atomic|OnceLock|OnceCell", s["ty"]) and not path.endswith("NEXT_CTXT_ID"):
-                    bad.append(path)
-        if bad:
-            return False, "process-wide mutable state in the thread-local ctxt module: %s" % bad, [], None
-        return True, "", [TL + "ACTIVE", "emit_traceparent::ACTIVE_TRACEPARENT"]
-    chk.ob("C03.R8:thread-local", "the active-frame storage is thread_local!; the only process-wide state is the id counter", tls)
-
-    # ---- R9 ---------------------------------------------------------------------------------------------------------------
-    def open_root():
-        b = P.impl_method(CTXT, TLC, "open_root")
-        bodies = [b] + P.closures_of(b)
-        for x in bodies:
-            if x.calls_to(path=TL + "current") or x.calls_to(path=TL + "swap"):
-                return False, "open_root reads the current ambient state: a root frame must show only its own properties", [], x.span
-        fe = b.calls_to(trait="emit_core::props::Props", name="for_each")
-        if len(fe) != 1 or not mir.o_is_param(b.origin(fe[0].args[0]), idx=2):
-            return False, "open_root must enumerate the given props once", [], b.span
-        return True, "", [fe[0].loc]
-    chk.ob("C03.R9:open_root", "a root frame is built only from its own properties", open_root)
-
-    def open_push():
-        b = P.impl_method(CTXT, TLC, "open_push")
-        cur = b.calls_to(path=TL + "current")
-        if len(cur) != 1 or self_fields(b, cur[0].args[0]) != ["id"]:
-            return False, "open_push must start from current(self.id)", [], b.span
-        r = b.origin(0)
-        if not (r[0] == "call" and r[1].bb == cur[0].bb) and not (r[0] == "local"):
-            # `span` is mutated in place; its whole-definition is the current() call
-            pass
-        ds = [d for d in b.defs().get(b.origin(0)[1] if b.origin(0)[0] == "local" else -1, ())]
-        fe = b.calls_to(trait="emit_core::props::Props", name="for_each")
-        if len(fe) != 1 or not mir.o_is_param(b.origin(fe[0].args[0]), idx=2):
-            return False, "open_push must enumerate the pushed props once", [], b.span
-        clo = b.origin(fe[0].args[1])
-        if clo[0] != "agg":
-            return False, "visitor not a closure", [], fe[0].loc
-        cb = P.body(clo[1]["def"])
-        ins = [c for c in cb.calls(normal_only=True) if c.callee.get("name") == "insert" and "HashMap" in (c.callee.get("full") or "")]
-        if len(ins) != 1:
-            return False, ("pushed properties must be written with HashMap::insert (pushed overrides ambient); found calls %s"
-                           % [c.callee.get("name") for c in cb.calls(normal_only=True)]), [], cb.span
-        if not common.has_root(cb.origin(ins[0].args[1]), "param", 2) or not common.has_root(cb.origin(ins[0].args[2]), "param", 3):
-            return False, "insert is not (visited key, visited value)", [], ins[0].loc
-        if cb.count_on_paths({ins[0].bb}) != (1, 1):
-            return False, ("open_push writes a pushed property only on some paths (a filter on the key or value at %s): a property the frame "
-                           "was given - e.g. a null that is meant to blank out an ambient value - would not be part of the frame"
-                           % ins[0].loc), [], ins[0].loc
-        # sibling agreement: root and push frames buffer a visited property by the same steps
-        rb_ = P.impl_method(CTXT, TLC, "open_root")
-        rfe = rb_.calls_to(trait="emit_core::props::Props", name="for_each")
-        if len(rfe) == 1 and rb_.origin(rfe[0].args[1])[0] == "agg":
-            rcb = P.body(rb_.origin(rfe[0].args[1])[1]["def"])
-            seq_a = [c.callee.get("name") for c in cb.calls(normal_only=True)]
-            seq_b = [c.callee.get("name") for c in rcb.calls(normal_only=True)]
-            if sorted(map(str, seq_a)) != sorted(map(str, seq_b)) or len(list(cb.switches())) != len(list(rcb.switches())):
-                return False, "open_root and open_push buffer a visited property by different steps (%s vs %s)" % (seq_b, seq_a), [], cb.span
-        mm = [c for c in b.calls(normal_only=True) if c.callee.get("name") == "make_mut"]
-        if len(mm) != 1:
-            return False, "the snapshot must be made unique with Arc::make_mut before it is written (copy-on-write)", [], b.span
-        return True, "", [cur[0].loc, ins[0].loc, mm[0].loc]
-    chk.ob("C03.R9:open_push", "a pushed frame is the current snapshot (copy-on-write) overlaid by the pushed properties", open_push)
-
-    open_disabled_rule(chk, P, "C03")
-
-    def with_current():
-        b = P.impl_method(CTXT, TLC, "with_current")
-        cur = b.calls_to(path=TL + "current")
-        if len(cur) != 1 or self_fields(b, cur[0].args[0]) != ["id"]:
-            return False, "with_current must read current(self.id)", [], b.span
-        us = [c for c in b.calls(normal_only=True) if c.callee.get("name") == "call_once"]
-        if len(us) != 1 or b.count_on_paths({us[0].bb}) != (1, 1):
-            return False, "with_current must call the callback exactly once", [], b.span
-        if not common.has_root(b.origin(us[0].args[1]), "callsite", cur[0].bb):
-            return False, "the callback is shown %s, not the current snapshot" % o_str(b.origin(us[0].args[1])), [], us[0].loc
-        return True, "", [cur[0].loc, us[0].loc]
-    chk.ob("C03.R9:with_current", "with_current shows the callback a snapshot of this context's slot", with_current)
-
-    # ---- R10 ---------------------------------------------------------------------------------------------------------------
-    def frame_adt():
-        a = P.adt(TL + "ThreadLocalCtxtFrame")
-        tys = [f["ty"] for v in a["variants"] for f in v["fields"]]
-        for t in tys:
-            if re.search(r"RefCell|Cell<|Mutex|RwLock|Atomic", t):
-                return False, "ThreadLocalCtxtFrame has interior mutability: %s" % t, [], a["span"]
-            if "HashMap" in t and "Arc<" not in t:
-                return False, "frame props are not behind Arc (snapshot semantics): %s" % t, [], a["span"]
-        return True, "", tys
-    chk.ob("C03.R10:ThreadLocalCtxtFrame", "a frame is an immutable shared snapshot (Arc, no interior mutability): moving it carries its properties", frame_adt)
+    thread_local_rules(chk, P, "C03")
 
     ctxt_forwarding(chk, P, "C03", 28)
 
